@@ -20,6 +20,9 @@ CHECKS = {
  "C07": dict(technique="static analysis: symbolic blob terms (via paseto-core generics, DH/RSA-KEM algebra) compared with specification terms and between siblings; T-FIXW over FFI big-integer encoders; unwrap Err-exit whitelist",
    text="For 6 backends x {PIE, PBKW, PKE}: the blob term equals the PASERK specification term (domain bytes, KDF identities/split points, cipher incl. 128-bit CTR counter, MAC transcript order, parameter field layout), siblings (v3/aws-lc, v4/sodium, v1/v3, v2/v4) agree up to listed guarded deltas, every BN_bn2bin writes right-aligned into a fixed-width buffer, unwrap functions reject only on conditions the format states.",
    ref="DESIGN.md §4 C07"),
+ "C15": dict(technique="static analysis: CFG/dominator/natural-loop and def-use (origin) rules over the MIR of pre_auth_encode; single-forwarding-call rule over every WriteBytes impl",
+   text="pre_auth_encode has exactly the three writes of the spec (count, per-piece length = sum of fragment lengths, fragments) as unmodified u64::to_le_bytes / forwarded slices, in two plain forward loops with no other branch; every WriteBytes adapter (14, incl. the io::Write shim) forwards each slice once, unmodified. Piece order at call sites is decided under C03/C07. Injectivity follows mathematically.",
+   ref="DESIGN.md §4 C15"),
  "C08": dict(technique="static analysis: exact-length closure and validator must-pass rules over enumerated decode paths, symbolic encode∘decode composition with a table of inverse library pairs, component-wise Clone check, public-key derivation terms",
    text="For every HasKey impl (6 backends x 5 kinds): decode is closed by the kind's exact width, encode(decode(b)) = b symbolically (no canonicalising/truncating decoder), each success path passes the key type's validating constructor, Ed25519 secret decoders re-derive and compare the public half, manual Clone impls are component-wise, public_key() is the scheme's public key of that secret and equals the embedded half. One known finding (D7: libsodium public keys are length-checked only) is listed in known_findings.json.",
    ref="DESIGN.md §4 C08"),
